@@ -12,7 +12,7 @@ def repo_commits(prefix):
 CHECKS = {
  "C01": ("H-seq", "exploration", "runtime invariant monitor over seeded operation histories (client-boundary observations after every operation)",
          "Aggregates = sums over iter_orders (plus total, snapshot fields, no duplicate listing) re-checked after every operation of thousands of mode-mixed random histories over all 7 order types and all rebuild routes; held-on-what-was-run, not a proof.",
-         "Trusts the harness's own summation and the listing returned by iter_orders; histories <= 80 operations; inputs per section 2.3 of DESIGN.md.", "4/C01"),
+         "Trusts the harness's own summation and the listing returned by iter_orders; most histories <= 80 operations on <= 10 resting orders, with scale tiers (31-1100 resting orders, 1500-9000 operations, mid / huge magnitudes, bulk scenarios up to 70 000 orders and 131 072 mutations between two listings, DESIGN.md 8.2); inputs per section 2.3 of DESIGN.md.", "4/C01"),
  "C02": ("H-seq", "exploration", "offline checker over recorded histories: per-call accounting + per-order lifetime ledger",
          "Every match result of every history is checked for executed+remaining, completion flag, transaction fields, fresh transaction ids and the filled-order list; a ledger per order incarnation bounds lifetime fills by supply adjusted by amendments.",
          "Same bounds as C01; ledger adjusts supply from the observations around a successful amend.", "4/C02"),
@@ -21,7 +21,7 @@ CHECKS = {
          "Stamps are the harness's reading of the statement (add/re-add/replenish = now, partial fill/amend keep); silent replenishments get an interval stamp.", "4/C04"),
  "C05": ("grid + H-seq", "exploration", "exhaustive input grid + boundary cross-product on match_against judged by a statement-derived relation; same rules replayed through match_order histories",
          "Small grid and 64-bit boundary set enumerated completely on the public match_against; plus every transaction of sampled histories replayed through the statement's per-order machine and compared with the listing.",
-         "Relation written from the statement; values between grid and boundary points are not covered.", "4/C05"),
+         "Relation written from the statement; values between grid and boundary points are sampled (mid magnitudes drawn relative to the display), not enumerated.", "4/C05"),
  "C06": ("H-seq", "exploration", "bounded-progress monitor: logical step budget from the hook step counter, plus post-conditions on every match",
          "Liveness restated as bounded progress: every match of every zero-heavy history returns within 2*10^6 shared-memory steps, leaves no displayed quantity when unfilled, and executes at least min(requested, displayed).",
          "Cannot prove termination; generators keep legitimate matches below 10^4 replenishment rounds.", "4/C06"),
@@ -104,7 +104,7 @@ def main():
         },
         "engines": [
             {"name": "H-seq", "path": "harness/src/hseq.rs", "serves_properties": ["C01", "C02", "C04", "C05", "C06", "C07", "C10", "C11", "C15"],
-             "kind_free_text": "single-threaded seeded history engine; observations through the public API before/after every operation; monitors in harness/src/mon.rs"},
+             "kind_free_text": "single-threaded seeded history engine; observations through the public API before/after every operation; monitors in harness/src/mon.rs; scale tiers per case and sparse-observation bulk scenarios (harness/src/bulk.rs) with an exact oracle"},
             {"name": "E1", "path": "harness/src/sched.rs", "serves_properties": ["C03", "C08", "C12", "C13", "C14", "C15"],
              "kind_free_text": "baton scheduler on the verif-hooks wrappers: real threads, one shared-memory step at a time, seeded rw/PCT/delay strategies, stop-the-world inspection"},
             {"name": "E2", "path": "harness/src/conc.rs", "serves_properties": ["C03", "C08", "C12", "C13", "C14", "C15"],
